@@ -57,6 +57,43 @@ type Term struct {
 	lo   int64 // declared range for variables (signed interpretation)
 	hi   int64
 	size int // number of nodes (tree size, capped) for heuristics
+	h1   uint64 // structural hashes (query cache keys)
+	h2   uint64
+}
+
+func mix(h, x uint64) uint64 {
+	h ^= x + 0x9e3779b97f4a7c15 + (h << 6) + (h >> 2)
+	h *= 0xff51afd7ed558ccd
+	h ^= h >> 33
+	return h
+}
+
+// hashed fills in the structural hashes of a freshly built node.
+func hashed(t *Term) *Term {
+	a := uint64(t.op)<<8 | uint64(t.w)
+	h1 := mix(0x1234567, a)
+	h2 := mix(0xabcdef01, a*31+7)
+	switch t.op {
+	case OConst:
+		h1 = mix(h1, t.val)
+		h2 = mix(h2, t.val^0x5555)
+	case OVar:
+		for i := 0; i < len(t.name); i++ {
+			h1 = mix(h1, uint64(t.name[i]))
+			h2 = mix(h2, uint64(t.name[i])+uint64(i)*131)
+		}
+	}
+	for _, c := range [3]*Term{t.a, t.b, t.c} {
+		if c != nil {
+			h1 = mix(h1, c.h1)
+			h2 = mix(h2, c.h2)
+		} else {
+			h1 = mix(h1, 0x77)
+			h2 = mix(h2, 0x99)
+		}
+	}
+	t.h1, t.h2 = h1, h2
+	return t
 }
 
 func mask(w uint8) uint64 {
@@ -81,11 +118,11 @@ func mkConst(w uint8, v uint64) *Term {
 		}
 		return termFalse
 	}
-	return &Term{op: OConst, w: w, val: v & mask(w), size: 1}
+	return hashed(&Term{op: OConst, w: w, val: v & mask(w), size: 1})
 }
 
-var termTrue = &Term{op: OConst, w: 0, val: 1, size: 1}
-var termFalse = &Term{op: OConst, w: 0, val: 0, size: 1}
+var termTrue = hashed(&Term{op: OConst, w: 0, val: 1, size: 1})
+var termFalse = hashed(&Term{op: OConst, w: 0, val: 0, size: 1})
 
 func mkBool(b bool) *Term {
 	if b {
@@ -225,7 +262,7 @@ func evalOp(op Op, w uint8, aw uint8, a, b, c uint64) uint64 {
 }
 
 func mkVar(name string, w uint8) *Term {
-	return &Term{op: OVar, w: w, name: name, size: 1}
+	return hashed(&Term{op: OVar, w: w, name: name, size: 1})
 }
 
 func mkBin(op Op, a, b *Term) *Term {
@@ -348,7 +385,7 @@ func mkBin(op Op, a, b *Term) *Term {
 			return termTrue
 		}
 	}
-	return &Term{op: op, w: w, a: a, b: b, size: tsize(a, b)}
+	return hashed(&Term{op: op, w: w, a: a, b: b, size: tsize(a, b)})
 }
 
 func mkNot(a *Term) *Term {
@@ -361,7 +398,7 @@ func mkNot(a *Term) *Term {
 	if a.op == ONot {
 		return a.a
 	}
-	return &Term{op: ONot, w: 0, a: a, size: tsize(a)}
+	return hashed(&Term{op: ONot, w: 0, a: a, size: tsize(a)})
 }
 
 func mkUn(op Op, a *Term) *Term {
@@ -371,7 +408,7 @@ func mkUn(op Op, a *Term) *Term {
 	if a.isConst() {
 		return mkConst(a.w, evalOp(op, a.w, a.w, a.val, 0, 0))
 	}
-	return &Term{op: op, w: a.w, a: a, size: tsize(a)}
+	return hashed(&Term{op: op, w: a.w, a: a, size: tsize(a)})
 }
 
 func mkIte(c, x, y *Term) *Term {
@@ -398,7 +435,7 @@ func mkIte(c, x, y *Term) *Term {
 			return mkNot(c)
 		}
 	}
-	return &Term{op: OIte, w: x.w, a: c, b: x, c: y, size: tsize(c, x, y)}
+	return hashed(&Term{op: OIte, w: x.w, a: c, b: x, c: y, size: tsize(c, x, y)})
 }
 
 // mkExt converts a to width w (zero/sign extension or truncation).
@@ -421,7 +458,7 @@ func mkExt(a *Term, w uint8, signed bool) *Term {
 	if a.isConst() {
 		return mkConst(w, evalOp(op, w, a.w, a.val, 0, 0))
 	}
-	return &Term{op: op, w: w, a: a, size: tsize(a)}
+	return hashed(&Term{op: op, w: w, a: a, size: tsize(a)})
 }
 
 func mkAnd(ts ...*Term) *Term {
